@@ -135,6 +135,18 @@ def _judge(model, cls, kind, sym, fields, pss, mem):
                 (f"result is not reduce(operator.{fn}, rec(children)): "
                  f"{ast.unparse(rets[0].items[-1][1])}")
         if sym in ("or", "and"):
+            # the judge: the handler interpreted on every chain of up to three
+            # operands drawn from {0, 2, "", "s", False, True}; value, type and
+            # the sequence of evaluated operands must be Python's
+            from .. import evaljudge
+            wit, n_ = evaljudge.judge_logical(mem.node, sym, mem.owner.node)
+            if wit:
+                return False, (f"'{sym}' chains are not evaluated as Python "
+                               f"evaluates them: {wit[0][:260]}"
+                               + (f" (and {len(wit) - 1} more of {n_} chains)"
+                                  if len(wit) > 1 else ""))
+            return True, (f"as Python's '{sym}' on {n_} operand chains: same "
+                          "value, same operands evaluated, in the same order")
             fn = {"or": "any", "and": "all"}[sym]
             if rv[0] == "call" and rv[1] == fn and _seq_over(rv[2][0], f):
                 if rv[2][0][1] != "gen":
